@@ -133,6 +133,8 @@ class Cfg(object):
         elif self.instr == "nostl-asan":
             cflags = ("-g -DASCON_NO_STL -fsanitize=address,undefined -fno-sanitize-recover=undefined "
                       "-fno-sanitize=nonnull-attribute -fno-omit-frame-pointer")
+        elif self.instr == "coverage":
+            a.append("-DCOVERAGE=ON")      # the repository's own gcov option
         elif self.instr == "minimal":
             a.append("-DMINIMAL=ON")       # the documented static-library-only build (embedded / cross builds)
         elif self.instr == "nopic":
